@@ -177,7 +177,13 @@ def inject_stmt(s, rng, p):
     if t == "if":
         return ("if", [(E(c), B(b)) for c, b in s[1]], None if s[2] is None else B(s[2]))
     if t == "for":
-        return ("for", s[1], E(s[2]), None if s[3] is None else E(s[3]), B(s[4]), None if s[5] is None else B(s[5]), s[6])
+        it = E(s[2])
+        if isinstance(s[1], str) and rng.chance(1, 7):
+            # a string iterates over its characters: defined strings, the empty string, an undefined in its place
+            u = ("var", "undef%d" % rng.below(3))
+            it = rng.choice([("var", "s"), ("str", "ab"), ("str", ""), ("str", "X y"), ("bin", "~", ("var", "s"), ("str", "q")), u,
+                             ("filter", "default", u, [("str", "pq")]), ("filter", "upper", ("var", "s"), []), ("filter", "string", ("var", "n"), [])])
+        return ("for", s[1], it, None if s[3] is None else E(s[3]), B(s[4]), None if s[5] is None else B(s[5]), s[6])
     if t == "set":
         return ("set", s[1], E(s[2]))
     if t == "setblock":
